@@ -29,6 +29,17 @@ def names_ir(pkg="com.palantir.names"):
                                             ir.field("selfRef", ir.optional(R("Self"))), ir.field("unknown", ir.optional(R("Unknown")))], package=pkg))
     types.append(ir.union_("PreludeUnion", [ir.field("some", R("Some")), ir.field("none", R("None")), ir.field("ok", R("Ok")), ir.field("unknown", R("Unknown")),
                                            ir.field("self", R("Self")), ir.field("box", R("Box"))], package=pkg))
+    # names the generator itself uses for items next to the fields: constructor `new`, accessors, builder stages
+    types.append(ir.object_("OptionalNew", [ir.field("new", ir.optional(P("STRING"))), ir.field("a", P("INTEGER"))], package=pkg))
+    types.append(ir.object_("ListNew", [ir.field("new", ir.list_(P("INTEGER")))], package=pkg))
+    types.append(ir.object_("MapNew", [ir.field("new", ir.map_(P("STRING"), P("INTEGER"))), ir.field("b", P("STRING")), ir.field("c", P("STRING"))], package=pkg))
+    types.append(ir.object_("RequiredNew", [ir.field("new", P("STRING")), ir.field("newer", ir.optional(P("STRING")))], package=pkg))
+    types.append(ir.object_("FourRequiredAndNew", [ir.field("new", ir.set_(P("STRING")))] + [ir.field("r%d" % i, P("INTEGER")) for i in range(4)], package=pkg))
+    types.append(ir.object_("ItemNames", [ir.field("default", ir.optional(P("STRING"))), ir.field("clone", P("INTEGER")), ir.field("from", ir.list_(P("STRING"))),
+                                          ir.field("into", ir.optional(P("INTEGER"))), ir.field("eq", P("BOOLEAN")), ir.field("cmp", ir.optional(P("DOUBLE"))),
+                                          ir.field("hash", ir.set_(P("INTEGER"))), ir.field("fmt", P("STRING")), ir.field("serialize", ir.optional(P("STRING"))),
+                                          ir.field("deserialize", ir.map_(P("STRING"), P("STRING"))), ir.field("complete", ir.optional(P("INTEGER"))),
+                                          ir.field("stage", P("INTEGER"))], package=pkg))
     types.append(ir.enum_("KeywordLikeEnum", ["TYPE", "SELF", "ASYNC", "TRY", "A_1", "X"], package=pkg))
     types.append(ir.alias_("AliasOfPrelude", R("Vec"), package=pkg))
     eps = []
@@ -39,7 +50,8 @@ def names_ir(pkg="com.palantir.names"):
         eps.append(ir.endpoint(camel([k, "endpoint"]), "POST", "/kw2/%s" % k, [ir.arg(k, R("KeywordFields"), "body")], returns=ir.optional(R("KeywordVariants"))))
     services = [ir.service("KeywordService", eps, package=pkg), ir.service("Service", [ir.endpoint("new", "GET", "/new", [], returns=P("STRING"))], package=pkg)]
     errors = [ir.error("KeywordError", "Names", "INVALID_ARGUMENT", [ir.field(k, P("STRING")) for k in KEYWORDS[:10]],
-                       [ir.field(k, P("INTEGER")) for k in KEYWORDS[10:20]], package=pkg)]
+                       [ir.field(k, P("INTEGER")) for k in KEYWORDS[10:20]], package=pkg),
+              ir.error("NewError", "Names", "CONFLICT", [ir.field("new", ir.optional(P("STRING")))], [ir.field("old", P("STRING"))], package=pkg)]
     return ir.definition(types=types, services=services, errors=errors)
 
 
